@@ -15,6 +15,9 @@ CONSTANTS Ctx <- McCtxTerm
  ATo = {}
  AAmt = {}
  IAmt = {}
+ ACodes = {}
+ AIds = {}
+ BGL = {}
  BoxFrom = {"a4"}
  BoxTo = {"a1", "a2"}
  RewFrom = {"F", "a4"}
